@@ -2,7 +2,7 @@
    Statements only; proofs in Proofs/ObjProofs.v. *)
 From Coq Require Import ZArith QArith Qcanon List Lia Bool.
 From RV Require Import Base.Num Base.PyList Base.Vec Expr Ocp Rows Mech.Grid Mech.Intg Mech.Sampling
-     Mech.Shooting Mech.Colloc Spec.SpecDyn Spec.SpecPlace Inst Proofs.QcInst Proofs.ObjProofs.
+     Mech.Shooting Mech.Colloc Base.Poly Spec.SpecDyn Spec.SpecPlace Inst Proofs.QcInst Proofs.ObjProofs Proofs.QuadProofs.
 Import ListNotations.
 Local Open Scope nat_scope.
 
@@ -85,6 +85,24 @@ Theorem C05_dc_weights_sum_examples :
   map (fun q => this q) (@coeff_B Qc QcOps [Q2Qc 1]) = [1%Q].
 Proof. split; [|split]; vm_compute; reflexivity. Qed.
 Print Assumptions C05_dc_weights_sum_examples.
+
+(* for ANY pairwise distinct collocation points over any field: the weights integrate every
+   polynomial with at most d coefficients exactly (interpolatory rule; proof by root counting), in
+   particular they sum to one, so constants are integrated exactly by every scheme and degree *)
+Theorem C05_dc_quadrature_exact :
+  forall (F : Type) (OF : Ops F), FieldLaws OF ->
+  forall tau p : list F, distinct tau -> length p <= length tau ->
+    fold_left (fun a j => a +! nth j (coeff_B tau) o0 *! polyval p (nth j tau o0)) (seq 0 (length tau)) o0
+    = pint01 p.
+Proof. intros F OF Fl tau p Hd Hl. exact (dc_quadrature_exact Fl tau p Hd Hl). Qed.
+Print Assumptions C05_dc_quadrature_exact.
+
+Theorem C05_dc_weights_sum_to_one :
+  forall (F : Type) (OF : Ops F), FieldLaws OF ->
+  forall tau : list F, distinct tau -> 0 < length tau ->
+    fold_left (fun a j => a +! nth j (coeff_B tau) o0) (seq 0 (length tau)) o0 = o1.
+Proof. intros F OF Fl tau Hd Hl. exact (dc_weights_sum_to_one Fl tau Hd Hl). Qed.
+Print Assumptions C05_dc_weights_sum_to_one.
 
 (* with two points the rule is exact on the basis {1, s} of the affine integrands:
    sum w_j = 1 and sum w_j tau_j = 1/2 = int_0^1 s ds *)
